@@ -236,3 +236,23 @@ Theorem C05_new_one_debit_issued : forall cfg s c a,
     /\ 0 < amt /\ 0 < len evs /\ n = c_counter rc + 1.
 Proof. exact GapC05.new_one_debit_shape. Qed.
 Print Assumptions C05_new_one_debit_issued.
+
+(* the keeper API driven by the owning module, stated with its real scope (the Go keeper checks
+   the consumer only when the context carries a module name; wf_op excludes calls aimed at a
+   context without one): C05_auth_mod_* above hold for the model without this hypothesis, the
+   Go code matches them only under it *)
+Theorem C05_auth_mod_scoped : forall cfg s o c who s',
+  (exists provs thr cap timeout freq total, o = OModUpdate c who provs thr cap timeout freq total)
+  \/ o = OModPause c who \/ o = OModStart c who \/ o = OModKill c who ->
+  wf_op s o -> handle cfg s o = Ok s' ->
+  exists rc, get c (ctxs s) = Some rc /\ c_mod rc <> 0 /\ c_cons rc = who.
+Proof. exact GapC05.auth_mod_scoped. Qed.
+Print Assumptions C05_auth_mod_scoped.
+
+(* withdrawing (one provider, or "all my providers" with prov = 0) changes only earned-fee
+   records of providers owned by the signer *)
+Theorem C05_withdraw_touches_own : forall cfg s owner prov ok s' p,
+  Inv cfg s -> h_withdraw s owner prov ok = Ok s' ->
+  get p (earned s') <> get p (earned s) -> get p (owner_of s) = Some owner.
+Proof. exact GapC05.withdraw_touches_own. Qed.
+Print Assumptions C05_withdraw_touches_own.
